@@ -199,12 +199,23 @@ def observe(ctx, cd, label, nsf, dclspc, edits, compile_all, touch=()):
                 continue
             # overridden = declared in the realising class's header (marked override, or declared by the class itself)
             have = collections.Counter((d["name"], len(d["params"])) for d in us.declarations(tree[hp[0]]))
-            for op in i.OPERATIONS:
-                if op.VISIBILITY not in ("public", "protected", "private"):
+            # the realised interface and every pure virtual interface it inherits from, directly or not (an interface that adds nothing
+            # of its own still hands down what its parents demand)
+            chain, todo_i, seen_i = [], [inh.CLASS_FROM_ID], set()
+            while todo_i:
+                x = todo_i.pop(0)
+                if x in seen_i or x not in cd.classes or not cd.classes[x].PURE_VIRTUAL_INTERFACE:
                     continue
-                if not have.get((op.NAME, len(op.PARAMETERS))):
-                    fail("%s realises %s but does not override %s" % (c.NAME, i.NAME, op.NAME), "uml:%s:%s:%s" % (label, c.NAME, op.NAME),
-                         finding_class="uml:realised-operation-not-overridden")
+                seen_i.add(x)
+                chain.append(cd.classes[x])
+                todo_i += [y.CLASS_FROM_ID for y in cd.inheritence.values() if y.CLASS_TO_ID == x]
+            for j in chain:
+                for op in j.OPERATIONS:
+                    if op.VISIBILITY not in ("public", "protected", "private"):
+                        continue
+                    if not have.get((op.NAME, len(op.PARAMETERS))):
+                        fail("%s realises %s%s but does not override %s" % (c.NAME, i.NAME, "" if j is i else " (which inherits %s)" % j.NAME, op.NAME),
+                             "uml:%s:%s:%s" % (label, c.NAME, op.NAME), finding_class="uml:realised-operation-not-overridden")
         # accepted by a C++ compiler
         todo = sorted(tree) if compile_all else sorted(tree)[:: max(1, len(tree) // 6)]
         # the files of the classes an edit names are always compiled
